@@ -70,6 +70,7 @@ class Engine:
     def reset_path(self, prefix):
         self.solver = z3.Solver()
         self.solver.set("rlimit", RLIMIT)
+        self.solver.set("timeout", 20000)      # wall-clock safety net only; the resource limit decides
         self.facts = T.Facts()
         self._nfacts_pushed = 0
         self.pc = []
@@ -84,6 +85,7 @@ class Engine:
         self.call_stack = []
         self.frame_writes = None
         self.store_eqs = []
+        self.ghost = "x"
         self.apply_w_stack = []
         self.loop_pre = []
         self._lists = None
